@@ -495,6 +495,11 @@ static void run_stream(FILE *in)
         free(fn);
       }
       putchar('\n'); free(dir);
+    } else if (!strcmp(c, "writeto")) {
+      /* econf_writeFile into a directory of the tree (which may not exist, or not be a directory) */
+      econf_file *kf = obj(t[1]); char *d = dec(t[2]), *fn = dec(t[3]); char *real = vpath(d);
+      printf("rc=%d\n", econf_writeFile(kf, real, fn));
+      free(d); free(fn); free(real);
     } else if (!strcmp(c, "reread")) {
       int d = atoi(t[1]); econf_file *kf = obj(t[2]);
       if (!kf) { printf("noobj\n"); }
